@@ -95,6 +95,18 @@ def answer (w : List String) : String :=
         (ratOf (w.getD 8 "1")) (ratOf (w.getD 9 "1")) with
     | .ok (a, b) => sh a ++ " # " ++ sh b
     | .error e => "raise:" ++ errStr e
+  | some "seq" =>
+    -- seq revolve|disk|periodic l cm rd wd uf ub
+    let opS (o : PyOp) : String := match o.index with
+      | .pair a b => s!"{o.type}:{a}:{b}"
+      | .single a => s!"{o.type}:{a}"
+    let r : M (List PyOp) := match w.getD 1 "" with
+      | "revolve" => revolve fuel (i 2) (i 3) (ratOf (w.getD 4 "2")) (ratOf (w.getD 5 "2")) (ratOf (w.getD 6 "1")) (ratOf (w.getD 7 "1")) none
+      | "disk" => disk_revolve fuel (i 2) (i 3) (ratOf (w.getD 4 "2")) (ratOf (w.getD 5 "2")) (ratOf (w.getD 6 "1")) (ratOf (w.getD 7 "1")) none none
+      | _ => periodic_disk_revolve fuel (i 2) (i 3) (ratOf (w.getD 4 "2")) (ratOf (w.getD 5 "2")) (ratOf (w.getD 6 "1")) (ratOf (w.getD 7 "1")) none none
+    match r with
+    | .ok ops => String.intercalate "," (ops.map opS)
+    | .error e => "raise:" ++ errStr e
   | some "beta" =>
     match beta (i 1) (i 2) with
     | .ok q => if q.den = 1 then toString q.num else s!"{q.num}/{q.den}"
